@@ -214,6 +214,12 @@ func runConcurrent(r *ev.Run, t target, w *world.World, plan []world.Delivery, s
 	wgD.Wait()
 	atomic.StoreInt32(&stop, 1)
 	wgR.Wait()
+	if hc, ok := t.(interface{ Healthy() error }); ok {
+		if err := hc.Healthy(); err != nil {
+			r.Inconclusive("full server (concurrent run): %v", err)
+			return nil
+		}
+	}
 	for s := range out {
 		res.recs = append(res.recs, out[s]...)
 	}
